@@ -32,6 +32,7 @@ git -C "$w" apply -R "$d/demo.diff"
 ( cd "$w" && cargo nextest run --workspace --no-fail-fast --test-threads 8 --offline 2>&1 | tail -4 ) | tee -a "$log"
 git -C "$w" checkout -q -- . ; git -C "$w" clean -fdq -e target
 # the check, in the scratch harness
+mkdir -p /tmp/mut
 cat > /tmp/mut/seed_$id.py <<PY
 import subprocess,sys
 subprocess.check_call(["git","-C",sys.argv[1],"apply","$d/patch.diff"])
